@@ -3,6 +3,7 @@ package world
 import (
 	"context"
 	"fmt"
+	"strings"
 	"time"
 
 	"verifharness/core"
@@ -23,6 +24,10 @@ type BuildOpts struct {
 	BigNums    bool // boundary-magnitude values under the indexed keys
 	BigRegion  bool // external files get multi-MiB filter sections (multi-chunk region reads)
 	ManyFiles  bool // more, smaller ingest steps (several files per engine: multi-group merges)
+	// BigBlocks pads rows with kilobytes of compressible and incompressible text and lets the
+	// engines (which differ in codec) build and combine blocks of hundreds of KiB: more than one
+	// internal block of any streaming encoder.
+	BigBlocks bool
 }
 
 // Descriptor is the replayable description of a built scenario.
@@ -71,8 +76,20 @@ func BuildWith(r *core.Rand, caseID string, o BuildOpts, pre func(*World)) (*Wor
 	if o.SingleSpec {
 		ne = 1
 	}
+	if o.BigBlocks {
+		ne = 3 // one engine per codec
+	}
 	for i := 0; i < ne; i++ {
 		spec := gen.PickEngineSpec(r.Split("spec", i), v, tok)
+		if o.BigBlocks {
+			spec.Compression = []string{"zstd", "snappy", "none"}[(i+r.Intn(3))%3]
+			spec.ZstdLevel = 1
+			spec.Part = gen.PartFunc{Name: "none"}
+			spec.Partition = "none"
+			spec.MinMax = nil
+			spec.RGRows, spec.RGBytes, spec.BufRows, spec.BufBytes = 1<<20, 1<<30, 1<<20, 1<<30
+			spec.MaxFileSize, spec.MergeFiles = 10<<30, 10
+		}
 		if o.HighFPR && r.Chance(0.7) {
 			spec.FPR = core.Pick(r, []float64{0.5, 0.5, 0.2})
 		}
@@ -88,6 +105,9 @@ func BuildWith(r *core.Rand, caseID string, o BuildOpts, pre func(*World)) (*Wor
 	}
 	budget := r.Range(5, maxRows)
 	steps := r.Range(2, 7)
+	if o.BigBlocks {
+		budget, steps = r.Range(60, 160), r.Range(3, 5)
+	}
 	if o.ManyFiles {
 		budget = r.Range(maxRows/2, maxRows)
 		steps = r.Range(6, 14)
@@ -101,8 +121,12 @@ func BuildWith(r *core.Rand, caseID string, o BuildOpts, pre func(*World)) (*Wor
 		}
 		var batches [][]*RowRec
 		total := 0
+		compressibleStep := r.Bool()
 		for b := 0; b < nb && budget > 0; b++ {
 			n := r.Range(1, 12)
+			if o.BigBlocks {
+				n = r.Range(15, 40)
+			}
 			if r.Chance(0.15) && !o.ManyFiles {
 				n = r.Range(12, 40)
 			}
@@ -111,6 +135,22 @@ func BuildWith(r *core.Rand, caseID string, o BuildOpts, pre func(*World)) (*Wor
 			}
 			var recs []*RowRec
 			for i := 0; i < n; i++ {
+				if o.BigBlocks {
+					recs = append(recs, w.NewRowWith(rr, ei, func(row map[string]any) {
+						// one kind of padding per file: a file of highly compressible rows is
+						// small on disk however much it decodes to, one of random text is not
+						if compressibleStep {
+							row["pad"] = strings.Repeat(core.Pick(rr, v.Words)+" ", rr.Range(500, 2500))
+						} else {
+							var sb strings.Builder
+							for k, m := 0, rr.Range(300, 1500); k < m; k++ {
+								fmt.Fprintf(&sb, "%x ", rr.Uint64())
+							}
+							row["pad"] = sb.String()
+						}
+					}))
+					continue
+				}
 				recs = append(recs, w.NewRow(rr, ei))
 			}
 			if r.Chance(0.1) && len(recs) > 0 {
@@ -194,6 +234,23 @@ func BuildWith(r *core.Rand, caseID string, o BuildOpts, pre func(*World)) (*Wor
 				}
 			}
 			d.Steps = append(d.Steps, fmt.Sprintf("merge(engine=%d)x%d", mi, rounds))
+		}
+	}
+	if o.BigBlocks && !o.NoMerge {
+		// files written under different codecs get merged by an engine whose own codec compresses
+		for mi, spec := range w.Specs {
+			if spec.Compression == "none" || r.Chance(0.3) {
+				continue
+			}
+			ctx, cancel := context.WithTimeout(context.Background(), 120*time.Second)
+			_, err := w.Eng[mi].Merge(ctx)
+			cancel()
+			if err != nil {
+				w.Close()
+				return nil, nil, fmt.Errorf("final merge by engine %d: %w", mi, err)
+			}
+			d.Steps = append(d.Steps, fmt.Sprintf("merge(engine=%d,codec=%s)", mi, spec.Compression))
+			break
 		}
 	}
 	for _, rec := range w.Rows {
